@@ -44,7 +44,7 @@ def run(ctx):
     # the command-line tool end to end on a sample of the same generators: what is proved / compared about the in-memory result holds for the FILES
     # only if the tool finishes whenever the remap does and writes every assembly with exactly its scaffolds (waves 11-12)
     cli_cases = [gen(ctx, kind) for stream, kind, n in streams(ctx) for _ in range(max(3, n // 100))]
-    cli_cases += [R.make_case(ctx.rng, "primarymode") for _ in range(60 if ctx.thorough else 12)]     # merged all_haplotigs files (wave 13, C07k)
+    cli_cases += [R.make_case(ctx.rng, ctx.rng.choice(["primarymode", "primarynames"])) for _ in range(60 if ctx.thorough else 12)]     # merged all_haplotigs files (wave 13, C07k)
     R.run_cli_cases(ctx, "cli-end-to-end", cli_cases, (classify if "classify" in globals() else None),
                     only=["CLI exit", "CLI succeeded", "output file", "does not contain exactly", "unexpected assembly files"])
 
